@@ -447,6 +447,7 @@ package rosmar
 //@   ensures [C09:StartDCPFeed.backfill-from] result == nil && bf && !resume ==> callarg("Collection.enqueueBackfillEvents", 2) == args.Backfill
 //@   ensures [C09:StartDCPFeed.keysonly]      result == nil && bf ==> callarg("Collection.enqueueBackfillEvents", 3) == args.KeysOnly && callarg("Collection.enqueueBackfillEvents", 0) == c
 //@   ensures [C09:StartDCPFeed.markers]       result == nil && bf ==> pushes()[0].opcode == 0 && pushes()[1].opcode == 1 && pushpos(0) < callpos("Collection.enqueueBackfillEvents") && callpos("Collection.enqueueBackfillEvents") < pushpos(1)
+//@   ensures [C15:StartDCPFeed.markers-carry-no-cas] result == nil && bf ==> pushes()[0].cas == 0 && pushes()[1].cas == 0
 //@   ensures [C09,C16:StartDCPFeed.push-count] result == nil ==> lenlist(pushes()) == (if bf then 2 else 0) + (if args.Dump then 1 else 0)
 //@   ensures [C16:StartDCPFeed.dump-eof]      (result == nil && args.Dump && bf ==> pushes()[2].isnil) && (result == nil && args.Dump && !bf ==> pushes()[0].isnil)
 //@   ensures [C08,C16:StartDCPFeed.spawned]   result == nil ==> count("spawn") == 1
